@@ -106,45 +106,65 @@ def overrides_from_patch(root: str, patch_path: str) -> Optional[Dict[str, str]]
     return out
 
 
-def _keys(rule_ids: List[str], repo: Repo):
-    """violation keys of the property's rules on `repo` (rule scopes applied); raises AnalysisError"""
+def _rule_keys(rid: str, repo: Repo):
     from . import cli
     cli._RULE_CACHE.clear()
-    keys = set()
-    texts = {}
-    for rid in rule_ids:
-        res = cli.run_rule(rid, repo)
-        for v in res.violations:
-            k = (v.rule.partition("@")[0], v.file, v.function, v.construct)
-            keys.add(k)
-            texts[k] = v.text()
+    res = cli.run_rule(rid, repo)
     cli._RULE_CACHE.clear()
+    keys, texts = set(), {}
+    for v in res.violations:
+        k = (v.rule.partition("@")[0], v.file, v.function, v.construct)
+        keys.add(k)
+        texts[k] = v.text()
     return keys, texts
 
 
-_BASE: Dict[tuple, set] = {}
+_BASE: Dict[tuple, tuple] = {}
+
+
+def _baseline(root: str, rid: str):
+    """violation keys of one rule on the unpatched tree and the set of files the rule consults (a fresh model per rule, so
+    that nothing a previous rule cached hides an access)"""
+    bk = (root, rid)
+    if bk not in _BASE:
+        repo = Repo(root)
+        repo.stats()
+        repo.modules.accessed.clear()
+        keys, _ = _rule_keys(rid, repo)
+        files = {repo.modules[m].relpath for m in list(repo.modules.accessed) if dict.__contains__(repo.modules, m)}
+        _BASE[bk] = (keys, files)
+    return _BASE[bk]
 
 
 def run_fixture(args) -> dict:
     kind, fid, patch_path, rule_ids, root = args
-    out = {"kind": kind, "id": fid, "status": "?", "detail": ""}
+    out = {"kind": kind, "id": fid, "status": "?", "detail": "", "rules_rerun": 0}
     try:
         ov = overrides_from_patch(root, patch_path)
         if ov is None:
             out["status"] = "inapplicable"
             out["detail"] = "the diff does not apply to the working tree"
             return out
-        bk = (root, tuple(rule_ids))
-        if bk not in _BASE:
-            _BASE[bk] = _keys(rule_ids, Repo(root))[0]
-        base = _BASE[bk]
-        try:
-            new, texts = _keys(rule_ids, Repo(root, overrides=ov))
-        except AnalysisError as e:
-            out["status"] = "fail"
-            out["detail"] = f"ANALYSIS-ERROR on the {'seeded change' if kind == 'seed' else 'refactoring'}: {e}"
-            return out
-        fresh = sorted(new - base)
+        touched = set(ov)
+        fresh: List[tuple] = []
+        texts: Dict[tuple, str] = {}
+        patched = None
+        for rid in rule_ids:
+            base, files = _baseline(root, rid)
+            if not (files & touched):
+                continue                 # the rule reads none of the files this diff changes: its verdict is the baseline's
+            if patched is None:
+                patched = Repo(root, overrides=ov)
+            out["rules_rerun"] += 1
+            try:
+                new, tx = _rule_keys(rid, patched)
+            except AnalysisError as e:
+                out["status"] = "fail"
+                out["detail"] = f"ANALYSIS-ERROR on the {'seeded change' if kind == 'seed' else 'refactoring'}: {e}"
+                return out
+            for k in sorted(new - base):
+                fresh.append(k)
+                texts[k] = tx[k]
         if kind == "seed":
             if fresh:
                 out["status"] = "pass"
